@@ -1,12 +1,14 @@
 #!/usr/bin/env python3
 """tools/seedtest.py <seeded-id>... [--tier quick] [--props C08,C02]
 Runs the checks of the property a seeded change breaks against a scratch worktree of /repo with the change
-applied (VERIF_REPO / VERIF_BUILD point the checks at it; evidence and replays go to a scratch directory),
-and records in seeded/<id>/result.json whether each check reported a VIOLATION.  /repo itself is not touched."""
+applied.  Everything the checks write (regenerated Gen tables, .vo files, model binaries, evidence, replays)
+goes into a private COPY of /verif ($SEED_VERIF, default /tmp/xvc-verif-seedcopy), so neither /repo nor /verif
+is touched and concurrent real checks are not disturbed.  The outcome is recorded in seeded/<id>/result.json."""
 import sys, os, json, subprocess, argparse, time
 ROOT = os.path.dirname(os.path.dirname(os.path.abspath(__file__)))
 WT = os.environ.get("SEED_WT", "/tmp/xvc-verif-mutwt")
 BUILD = WT + "-build"
+COPY = os.environ.get("SEED_VERIF", "/tmp/xvc-verif-seedcopy")
 
 def sh(cmd, **kw):
     return subprocess.run(cmd, shell=True, text=True, stdout=subprocess.PIPE, stderr=subprocess.STDOUT, **kw)
@@ -19,10 +21,6 @@ def main():
     a = ap.parse_args()
     if not os.path.exists(WT):
         r = sh("git -C /repo worktree add --detach %s HEAD" % WT); print(r.stdout)
-    # the checks regenerate coq/theories/Gen/*.v from the tree they are pointed at: keep /repo's tables
-    gen = os.path.join(ROOT, "coq", "theories", "Gen")
-    keep = "/tmp/xvc-verif-seed-genkeep"
-    sh("rm -rf %s && cp -a %s %s" % (keep, gen, keep))
     for sid in a.ids:
         d = os.path.join(ROOT, "seeded", sid)
         meta = json.load(open(os.path.join(d, "meta.json")))
@@ -33,21 +31,21 @@ def main():
         r = sh("git -C %s apply %s" % (WT, os.path.join(d, "patch.diff")))
         if r.returncode != 0:
             print(sid, "patch does not apply:", r.stdout); continue
+        # a fresh private copy of /verif (without the cargo target dirs); -t keeps times so nothing rebuilds needlessly
+        sh("mkdir -p %s && rsync -a --delete --exclude build/target --exclude build/harness --exclude replays --exclude .git %s/ %s/" % (COPY, ROOT, COPY))
         res = {"repo_head": head, "tier": a.tier, "checks": {}}
         for p in props:
-            ev = "/tmp/xvc-verif-seed-evid"
-            os.makedirs(ev, exist_ok=True)
-            env = dict(os.environ, VERIF_REPO=WT, VERIF_BUILD=BUILD, VERIF_EVID=ev, VERIF_REPLAYS=ev)
+            env = dict(os.environ, VERIF_REPO=WT, VERIF_BUILD=BUILD)
+            env.pop("VERIF_EVID", None); env.pop("VERIF_REPLAYS", None)
             t0 = time.time()
-            r = sh("./check %s --tier %s" % (p, a.tier), cwd=ROOT, env=env)
+            r = sh("./check %s --tier %s" % (p, a.tier), cwd=COPY, env=env)
             viol = [l for l in r.stdout.split("\n") if l.startswith("VIOLATION")]
             res["checks"][p] = {"exit": r.returncode, "violation_lines": viol, "wall_s": round(time.time() - t0, 1),
                                 "tail": r.stdout[-1500:]}
             print(sid, p, "exit", r.returncode, viol[:2], "%.0fs" % (time.time() - t0), flush=True)
         res["caught"] = any(c["exit"] == 1 and c["violation_lines"] for c in res["checks"].values())
+        res["caught_with_input"] = any(c["exit"] == 1 and any("no-failing-input-found" not in v for v in c["violation_lines"]) for c in res["checks"].values())
         json.dump(res, open(os.path.join(d, "result.json"), "w"), indent=1)
         sh("git -C %s checkout -- . && git -C %s clean -fdq" % (WT, WT))
-        sh("cp -a %s/. %s/" % (keep, gen))
-    sh("rm -rf %s" % keep)
 
 main()
